@@ -146,7 +146,8 @@ func fixSize(entries []raftpb.Entry, maxSize uint64) []raftpb.Entry {
 	for i := 0; i < len(entries); i++ {
 		size += entries[i].SizeUpperLimit()
 		if uint64(size) >= maxSize {
-			return entries[:i]
+			// Always return at least one entry, otherwise an oversized entry could never be read.
+			return entries[:max(i, 1)]
 		}
 	}
 	return entries
